@@ -137,7 +137,7 @@ theorem beBytes_beNat (w : List UInt8) (h : w.length = 16) : beBytes 16 (beNat w
   rw [beBytes_eq, e, ← hl, leBytes_leN, List.reverse_reverse]
 
 /-- the generate loop = the specification's block stream, truncated -/
-theorem genLoop_refines (hE : ∀ k v, (E k v).length = 16) (key : List UInt8) (fuel xlen : Nat) (v : List UInt8)
+theorem genLoop_refines (key : List UInt8) (hE : ∀ v, v.length = 16 → (E key v).length = 16) (fuel xlen : Nat) (v : List UInt8)
     (hv : v.length = 16) (hf : xlen < fuel) :
     (Model.genLoop E key fuel xlen v).1 = ((Spec.blocks E key ((xlen + 15) / 16) (beNat v)).1).take xlen ∧
     beNat (Model.genLoop E key fuel xlen v).2 = (Spec.blocks E key ((xlen + 15) / 16) (beNat v)).2 ∧
@@ -156,10 +156,10 @@ theorem genLoop_refines (hE : ∀ k v, (E k v).length = 16) (key : List UInt8) (
         simp only [h0, h15, if_true, hq2]
         refine ⟨?_, i2, i3⟩
         have hb : (E key (Model.incV v)).take 16 = E key (Model.incV v) :=
-          List.take_of_length_le (by rw [hE]; exact Nat.le_refl 16)
+          List.take_of_length_le (by rw [hE _ (incV_length v hv)]; exact Nat.le_refl 16)
         have hc : (E key (Model.incV v)).take xlen = E key (Model.incV v) :=
-          List.take_of_length_le (by rw [hE]; omega)
-        rw [hb, i1, List.take_append, hc, hE]
+          List.take_of_length_le (by rw [hE _ (incV_length v hv)]; omega)
+        rw [hb, i1, List.take_append, hc, hE _ (incV_length v hv)]
       · have hq2 : (xlen - 1) / 16 = 0 := by omega
         simp only [h0, h15, if_true, if_false, hq2, Spec.blocks, List.append_nil]
         exact ⟨trivial, trivial, incV_length v hv⟩
@@ -168,7 +168,7 @@ theorem genLoop_refines (hE : ∀ k v, (E k v).length = 16) (key : List UInt8) (
       simp [Spec.blocks, hv]
 
 /-- `AES256_CTR_DRBG_Update(NULL, Key, V)` = CTR_DRBG_Update(0^384, Key, V) -/
-theorem update_refines (hE : ∀ k v, (E k v).length = 16) (key v : List UInt8) (hv : v.length = 16) :
+theorem update_refines (key : List UInt8) (hE : ∀ v, v.length = 16 → (E key v).length = 16) (v : List UInt8) (hv : v.length = 16) :
     (Model.update E none key v).1 = (Spec.update E (List.replicate 48 0) key (beNat v)).1 ∧
     beNat (Model.update E none key v).2 = (Spec.update E (List.replicate 48 0) key (beNat v)).2 ∧
     (Model.update E none key v).2.length = 16 := by
@@ -179,26 +179,26 @@ theorem update_refines (hE : ∀ k v, (E k v).length = 16) (key v : List UInt8) 
   simp only [Spec.blocks, ← beNat_incV v hv, beBytes_beNat _ h1, ← beNat_incV _ h1, beBytes_beNat _ h2,
     ← beNat_incV _ h2, beBytes_beNat _ h3, List.append_nil, xorBytes_zeros, List.take_take]
   have hl : (E key (Model.incV v) ++ (E key (Model.incV (Model.incV v)) ++ E key (Model.incV (Model.incV (Model.incV v))))).length = 48 := by
-    simp [hE]
+    simp [hE _ h1, hE _ h2, hE _ h3]
   refine ⟨?_, ?_, ?_⟩
   · simp [List.append_assoc, List.take_take]
   · simp [List.append_assoc, List.take_take, List.take_of_length_le (Nat.le_of_eq hl)]
-  · simp [hE]
+  · simp [hE _ h1, hE _ h2, hE _ h3]
 
 /-- `randombytes(x, n)` refines CTR_DRBG_Generate (no additional input): same bytes, corresponding new state -/
-theorem randombytes_refines (hE : ∀ k v, (E k v).length = 16) (st : Model.St) (hv : st.v.length = 16) (n : Nat) :
+theorem randombytes_refines (st : Model.St) (hE : ∀ v, v.length = 16 → (E st.key v).length = 16) (hv : st.v.length = 16) (n : Nat) :
     (Model.randombytes E st n).1 = (Spec.generate E (abs st) n).1 ∧
     abs (Model.randombytes E st n).2 = (Spec.generate E (abs st) n).2 ∧
     (Model.randombytes E st n).2.v.length = 16 := by
-  obtain ⟨g1, g2, g3⟩ := genLoop_refines E hE st.key (n + 1) n st.v hv (by omega)
-  obtain ⟨u1, u2, u3⟩ := update_refines E hE st.key (Model.genLoop E st.key (n + 1) n st.v).2 g3
+  obtain ⟨g1, g2, g3⟩ := genLoop_refines E st.key hE (n + 1) n st.v hv (by omega)
+  obtain ⟨u1, u2, u3⟩ := update_refines E st.key hE (Model.genLoop E st.key (n + 1) n st.v).2 g3
   unfold Model.randombytes Spec.generate abs
   simp only [g1, ← g2, u1, ← u2]
   exact ⟨trivial, trivial, u3⟩
 
 
 /-- `AES256_CTR_DRBG_Update(provided_data, Key, V)` with 48 bytes of provided data -/
-theorem update_refines_some (hE : ∀ k v, (E k v).length = 16) (p key v : List UInt8) (hv : v.length = 16) :
+theorem update_refines_some (key : List UInt8) (hE : ∀ v, v.length = 16 → (E key v).length = 16) (p v : List UInt8) (hv : v.length = 16) :
     (Model.update E (some p) key v).1 = (Spec.update E p key (beNat v)).1 ∧
     beNat (Model.update E (some p) key v).2 = (Spec.update E p key (beNat v)).2 ∧
     ((Model.update E (some p) key v).2.length = 16 ∨ p.length < 48) := by
@@ -206,7 +206,7 @@ theorem update_refines_some (hE : ∀ k v, (E k v).length = 16) (p key v : List 
   have h2 := incV_length _ h1
   have h3 := incV_length _ h2
   have hl : (E key (Model.incV v) ++ (E key (Model.incV (Model.incV v)) ++ E key (Model.incV (Model.incV (Model.incV v))))).length = 48 := by
-    simp [hE]
+    simp [hE _ h1, hE _ h2, hE _ h3]
   unfold Model.update Spec.update
   simp only [Spec.blocks, ← beNat_incV v hv, beBytes_beNat _ h1, ← beNat_incV _ h1, beBytes_beNat _ h2,
     ← beNat_incV _ h2, beBytes_beNat _ h3, List.append_nil, List.append_assoc,
@@ -215,13 +215,13 @@ theorem update_refines_some (hE : ∀ k v, (E k v).length = 16) (p key v : List 
   by_cases hp : p.length < 48
   · exact Or.inr hp
   · left
-    simp [xorBytes, hE]; omega
+    simp [xorBytes, hE _ h1, hE _ h2, hE _ h3]; omega
 
 /-- `randombytes_init(entropy, NULL, _)` = CTR_DRBG_Instantiate (no df, empty personalization string) -/
-theorem init_refines (hE : ∀ k v, (E k v).length = 16) (entropy : List UInt8) :
+theorem init_refines (hE : ∀ v, v.length = 16 → (E (List.replicate 32 0) v).length = 16) (entropy : List UInt8) :
     abs (Model.init E entropy none) = Spec.instantiate E entropy [] := by
   have hz : beNat (List.replicate 16 0) = 0 := by decide
-  obtain ⟨u1, u2, _⟩ := update_refines_some E hE (entropy.take 48) (List.replicate 32 0) (List.replicate 16 0) (by simp)
+  obtain ⟨u1, u2, _⟩ := update_refines_some E (List.replicate 32 0) hE (entropy.take 48) (List.replicate 16 0) (by simp)
   unfold Model.init Spec.instantiate abs
   simp only [List.nil_append, List.length_nil, Nat.sub_zero, xorBytes_zeros, u1, u2, hz]
 
@@ -241,10 +241,10 @@ theorem xorBytes_take_left (l p : List UInt8) (n : Nat) (h : p.length ≤ n) :
         simp [xorBytes, this]
 
 /-- `randombytes_init(entropy, personalization, _)` with a 48-byte personalization string = CTR_DRBG_Instantiate -/
-theorem init_refines_pers (hE : ∀ k v, (E k v).length = 16) (entropy pers : List UInt8) (hp : pers.length = 48) :
+theorem init_refines_pers (hE : ∀ v, v.length = 16 → (E (List.replicate 32 0) v).length = 16) (entropy pers : List UInt8) (hp : pers.length = 48) :
     abs (Model.init E entropy (some pers)) = Spec.instantiate E entropy pers := by
   have hz : beNat (List.replicate 16 0) = 0 := by decide
-  obtain ⟨u1, u2, _⟩ := update_refines_some E hE (xorBytes entropy pers) (List.replicate 32 0)
+  obtain ⟨u1, u2, _⟩ := update_refines_some E (List.replicate 32 0) hE (xorBytes entropy pers)
     (List.replicate 16 0) (by simp)
   unfold Model.init Spec.instantiate abs
   simp only [hp, Nat.sub_self, List.replicate_zero, List.append_nil,
@@ -257,14 +257,46 @@ def specRun (sp : Spec.St) : List Nat → List (List UInt8) × Spec.St
   | [] => ([], sp)
   | n :: ns => ((Spec.generate E sp n).1 :: (specRun (Spec.generate E sp n).2 ns).1, (specRun (Spec.generate E sp n).2 ns).2)
 
-/-- every history of the model is the specification's history -/
-theorem run_refines (hE : ∀ k v, (E k v).length = 16) (st : Model.St) (hv : st.v.length = 16) (reqs : List Nat) :
+theorem update_key_length (key : List UInt8) (hE : ∀ v, v.length = 16 → (E key v).length = 16) (v : List UInt8)
+    (hv : v.length = 16) : (Model.update E none key v).1.length = 32 := by
+  have h1 := incV_length v hv
+  have h2 := incV_length _ h1
+  have h3 := incV_length _ h2
+  unfold Model.update
+  simp [hE _ h1, hE _ h2, hE _ h3]
+
+theorem randombytes_key_length (st : Model.St) (hE : ∀ v, v.length = 16 → (E st.key v).length = 16) (hv : st.v.length = 16)
+    (n : Nat) : (Model.randombytes E st n).2.key.length = 32 := by
+  obtain ⟨_, _, g3⟩ := genLoop_refines E st.key hE (n + 1) n st.v hv (by omega)
+  unfold Model.randombytes
+  simp only
+  exact update_key_length E st.key hE _ g3
+
+theorem update_some_lengths (key : List UInt8) (hE : ∀ v, v.length = 16 → (E key v).length = 16) (p v : List UInt8)
+    (hv : v.length = 16) (hp : p.length = 48) :
+    (Model.update E (some p) key v).1.length = 32 ∧ (Model.update E (some p) key v).2.length = 16 := by
+  have h1 := incV_length v hv
+  have h2 := incV_length _ h1
+  have h3 := incV_length _ h2
+  unfold Model.update
+  simp [xorBytes, hE _ h1, hE _ h2, hE _ h3, hp]
+
+theorem init_lengths (hE : ∀ v, v.length = 16 → (E (List.replicate 32 0) v).length = 16) (entropy : List UInt8)
+    (he : 48 ≤ entropy.length) :
+    (Model.init E entropy none).key.length = 32 ∧ (Model.init E entropy none).v.length = 16 := by
+  have := update_some_lengths E (List.replicate 32 0) hE (entropy.take 48) (List.replicate 16 0) (by simp) (by simp; omega)
+  unfold Model.init
+  exact this
+
+/-- every history of the model is the specification's history (block cipher with 16-byte blocks on 32-byte keys) -/
+theorem run_refines (hE : ∀ k v, k.length = 32 → v.length = 16 → (E k v).length = 16) (st : Model.St)
+    (hk : st.key.length = 32) (hv : st.v.length = 16) (reqs : List Nat) :
     (Model.run E st reqs).1 = (specRun E (abs st) reqs).1 ∧ abs (Model.run E st reqs).2 = (specRun E (abs st) reqs).2 := by
   induction reqs generalizing st with
   | nil => simp [Model.run, specRun]
   | cons n ns ih =>
-    obtain ⟨r1, r2, r3⟩ := randombytes_refines E hE st hv n
-    obtain ⟨i1, i2⟩ := ih (Model.randombytes E st n).2 r3
+    obtain ⟨r1, r2, r3⟩ := randombytes_refines E st (fun v h => hE _ _ hk h) hv n
+    obtain ⟨i1, i2⟩ := ih (Model.randombytes E st n).2 (randombytes_key_length E st (fun v h => hE _ _ hk h) hv n) r3
     simp only [Model.run, specRun, r1, ← r2, i1, i2]
     exact ⟨trivial, trivial⟩
 
